@@ -541,4 +541,4 @@ pub(crate) fn run_coroutine(mut co: CoroutineImpl) {
 
 #[cfg(kani)]
 #[path = "/verif/harness/may/coroutine_impl.rs"]
-mod verif_kani;
+pub(crate) mod verif_kani;
